@@ -785,6 +785,114 @@ func (p *Program) inlineOverlay() (map[string][]byte, []string) {
 				}
 				return true
 			})
+			// expression closures: `name := func(params) T { return E }`, new, every use a call: the
+			// call is replaced by (E) with the arguments in place of the parameters
+			ast.Inspect(fd.Body, func(n ast.Node) bool {
+				as, ok := n.(*ast.AssignStmt)
+				if !ok || as.Tok != token.DEFINE || len(as.Lhs) != 1 || len(as.Rhs) != 1 {
+					return true
+				}
+				id, ok := as.Lhs[0].(*ast.Ident)
+				lit, ok2 := as.Rhs[0].(*ast.FuncLit)
+				if !ok || !ok2 || id.Name == "_" || (knownFunc[fkey] && knownLocals[fkey][id.Name]) {
+					return true
+				}
+				if lit.Type.Results == nil || len(lit.Type.Results.List) != 1 || len(lit.Type.Results.List[0].Names) > 0 || len(lit.Body.List) != 1 {
+					return true
+				}
+				ret, ok := lit.Body.List[0].(*ast.ReturnStmt)
+				if !ok || len(ret.Results) != 1 {
+					return true
+				}
+				obj := in.info.Defs[id]
+				if obj == nil {
+					return true
+				}
+				hasLit := false
+				ast.Inspect(ret.Results[0], func(m ast.Node) bool {
+					if _, ok := m.(*ast.FuncLit); ok {
+						hasLit = true
+					}
+					return true
+				})
+				if hasLit {
+					return true
+				}
+				// all uses are calls outside the literal
+				var calls []*ast.CallExpr
+				okAll := true
+				callFun := map[*ast.Ident]*ast.CallExpr{}
+				ast.Inspect(fd.Body, func(m ast.Node) bool {
+					if call, ok := m.(*ast.CallExpr); ok {
+						if f, ok := call.Fun.(*ast.Ident); ok {
+							callFun[f] = call
+						}
+					}
+					return true
+				})
+				ast.Inspect(fd.Body, func(m ast.Node) bool {
+					u, ok := m.(*ast.Ident)
+					if !ok || in.info.Uses[u] != obj {
+						return true
+					}
+					call := callFun[u]
+					if call == nil || (lit.Pos() <= u.Pos() && u.End() <= lit.End()) || call.Ellipsis.IsValid() {
+						okAll = false
+						return true
+					}
+					calls = append(calls, call)
+					return true
+				})
+				if !okAll || len(calls) == 0 {
+					return true
+				}
+				b := &inlBody{file: callerFile, body: lit.Body, scope: lit, name: FuncName(fd) + "." + id.Name, isLit: true}
+				for _, f := range lit.Type.Params.List {
+					if _, variadic := f.Type.(*ast.Ellipsis); variadic {
+						return true
+					}
+					if len(f.Names) == 0 {
+						b.params = append(b.params, nil)
+					}
+					for _, nm := range f.Names {
+						if nm.Name == "_" {
+							b.params = append(b.params, nil)
+						} else {
+							b.params = append(b.params, in.info.Defs[nm])
+						}
+					}
+				}
+				locals, okb := in.bodyOK(b)
+				if !okb || len(locals) > 0 {
+					return true
+				}
+				var edits []inlEdit
+				src := in.source(callerFile)
+				for _, call := range calls {
+					pe, ok := in.paramEdits(b, callerFile, call.Args, locals)
+					if !ok || !in.freeVarsVisible(b, call.Pos(), locals) || src == nil {
+						return true
+					}
+					lo, hi := in.off(ret.Results[0].Pos()), in.off(ret.Results[0].End())
+					text := "(" + applyEdits(src[lo:hi], lo, pe) + ")"
+					if strings.Contains(text, "\n") {
+						return true
+					}
+					edits = append(edits, inlEdit{in.off(call.Pos()), in.off(call.End()), text})
+				}
+				// nested calls (a call inside another call's argument) would overlap: refuse
+				for i := range calls {
+					for j := range calls {
+						if i != j && calls[i].Pos() <= calls[j].Pos() && calls[j].End() <= calls[i].End() {
+							return true
+						}
+					}
+				}
+				in.edits[callerFile] = append(in.edits[callerFile], edits...)
+				in.edits[callerFile] = append(in.edits[callerFile], inlEdit{in.off(as.Pos()), in.off(as.End()), fmt.Sprintf("\n//line %s:%d\n", callerFile, in.line(as.End()))})
+				in.notes = append(in.notes, fmt.Sprintf("%s.%s (an expression) inlined at %d call sites", FuncName(fd), id.Name, len(calls)))
+				return true
+			})
 			// every use of such a closure must be a statement call outside its own body
 			if len(closures) > 0 {
 				stmtCalls := map[*ast.Ident]bool{}
